@@ -615,10 +615,20 @@ class Interp:
             return "replace_key(NULL key)"
         target = self.find_key(obj, kb, cs)
         size = len(obj.children)
+        old_key = (repl.key, repl.key_const, repl.key_ptr)
         got = f(obj.ptr, karg, repl.ptr)
-        # the replacement receives a copy of the key as passed, whether or not a member matched
-        repl.key, repl.key_const, repl.key_ptr = kb, False, None
         w.expect("%s(%r) [match=%s]" % (fname, kb, target is not None), got, 1 if target is not None else 0)
+        if target is not None:
+            repl.key, repl.key_const, repl.key_ptr = kb, False, None
+        else:
+            # refused: the object must be unchanged; whether the rejected replacement (still the caller's) keeps its old name
+            # or already carries the requested one is not specified - both are accepted, the model follows the library
+            kp = lib.shim_key(repl.ptr)
+            actual = ctypes.string_at(kp) if kp else None
+            if actual == old_key[0] and (old_key[0] is None or bool(lib.shim_type(repl.ptr) & 512) == bool(old_key[1])):
+                repl.key, repl.key_const, repl.key_ptr = old_key
+            else:
+                repl.key, repl.key_const, repl.key_ptr = kb, False, None
         if target is not None:
             self._replace(obj, target, repl)
             self.touch(obj, edit=size >= 2)
